@@ -114,8 +114,11 @@ def draw_message(d: Draw, op, kind, nchildren, layout=None):
         else:
             kids.append(child_for(kind, "one", e, v))
     if op == "def":
-        return def_message(kind, dev, name, state, kids, label="L2", group="G2")
-    return set_message(kind, dev, name, state, kids)
+        return def_message(kind, dev, name, state, kids, label="L2", group="G2", timestamp="2026-01-01T00:00:01")
+    # an update stamped like the definition before it (one-second server clock) or later;
+    # symbolic for the text kind, equal for the others (the bookkeeping is kind-independent)
+    ts = d.choice(("2026-01-01T00:00:00", "2026-01-01T00:00:01"), "timestamp") if kind == "Text" else "2026-01-01T00:00:00"
+    return set_message(kind, dev, name, state, kids, timestamp=ts)
 
 
 def step(layout, op, kind, nchildren, second=None):
